@@ -12,6 +12,7 @@ CONSTANTS
   Full = FALSE
   DLens = {0, 1, 2, 7, 255}
   Chunkings = {"all", "msg", "bytes", "split"}
+  CutChunkings = {"all", "msg", "bytes", "split"}
   WithUdp = TRUE
 INIT Init
 NEXT Next
